@@ -383,3 +383,33 @@ extern "C" {
   void __tsan_atomic_thread_fence(int) { __atomic_thread_fence(__ATOMIC_SEQ_CST); }
   void __tsan_atomic_signal_fence(int) {}
 }
+
+//---[ simulated clock and entropy ]---------------------------------------------
+// Temp-file names and build dates inside libocca come from time() and std::random_device; both are
+// replaced by deterministic streams so that a run is a pure function of its inputs.
+#include <ctime>
+#include <sys/time.h>
+namespace sim {
+  static unsigned long long simClockNs = 1700000000ull * 1000000000ull;
+  static unsigned long long entropyCalls = 0;
+}
+extern "C" {
+  time_t time(time_t *t) { sim::simClockNs += 1000; time_t v = (time_t) (sim::simClockNs / 1000000000ull); if (t) *t = v; return v; }
+  int gettimeofday(struct timeval *tv, void *) {
+    sim::simClockNs += 1000;
+    if (tv) { tv->tv_sec = sim::simClockNs / 1000000000ull; tv->tv_usec = (sim::simClockNs % 1000000000ull) / 1000; }
+    return 0;
+  }
+  int clock_gettime(clockid_t, struct timespec *ts) {
+    sim::simClockNs += 1000;
+    if (ts) { ts->tv_sec = sim::simClockNs / 1000000000ull; ts->tv_nsec = sim::simClockNs % 1000000000ull; }
+    return 0;
+  }
+  // unsigned int std::random_device::_M_getval()
+  unsigned int _ZNSt13random_device9_M_getvalEv(void *) {
+    unsigned long long x = (++sim::entropyCalls) * 0x9E3779B97F4A7C15ull;
+    x = (x ^ (x >> 30)) * 0xBF58476D1CE4E5B9ull;
+    x = (x ^ (x >> 27)) * 0x94D049BB133111EBull;
+    return 1000000000u + (unsigned int) ((x ^ (x >> 31)) % 3000000000ull);   // always ten digits
+  }
+}
